@@ -63,6 +63,10 @@ impl TextDecoder {
 
         if let Some((utf8_text, rest)) = self.split_utf8_start(raw_input, encoding) {
             raw_input = rest;
+            #[cfg(feature = "_verif_hooks")]
+            if !rest.is_empty() {
+                crate::verif::hit(13);
+            }
             let really_last = last_in_text_node && rest.is_empty();
 
             let source_location =
@@ -118,6 +122,8 @@ impl TextDecoder {
                 }
                 return Ok(());
             }
+            #[cfg(feature = "_verif_hooks")]
+            crate::verif::hit(12);
             raw_input = raw_input.get(read..).unwrap_or_default();
         }
     }
